@@ -2,24 +2,52 @@
 //! prints one `request<TAB>implementation-reply` line per case. The same
 //! requests are piped to the Lean driver and the replies compared.
 mod util;
+#[cfg(feature = "c_path")]
 mod c_path;
+#[cfg(feature = "c_line")]
 mod c_line;
+#[cfg(feature = "c_sysl")]
 mod c_sysl;
+#[cfg(feature = "c_gate")]
 mod c_gate;
+#[cfg(feature = "c_proc")]
 mod c_proc;
+#[cfg(feature = "c_walk")]
 mod c_walk;
+#[cfg(feature = "c_walktar")]
 mod c_walktar;
+#[cfg(feature = "c_strm")]
 mod c_strm;
+#[cfg(feature = "c_prt")]
 mod c_prt;
+#[cfg(feature = "c_boxp")]
 mod c_boxp;
+#[cfg(feature = "c_asm")]
 mod c_asm;
+#[cfg(feature = "c_time")]
 mod c_time;
+#[cfg(feature = "c_year")]
 mod c_year;
+#[cfg(feature = "c_fixed")]
 mod c_fixed;
+#[cfg(feature = "c_jrender")]
+mod c_jrender;
+#[cfg(feature = "c_srch")]
+mod c_srch;
+#[cfg(feature = "c_layout")]
+mod c_layout;
+#[cfg(feature = "c_fixedfile")]
+mod c_fixedfile;
+#[cfg(feature = "c_patsel")]
 mod c_patsel;
+#[cfg(feature = "c_frender")]
 mod c_frender;
+#[cfg(feature = "c_syslc")]
 mod c_syslc;
+#[cfg(feature = "c_rgx")]
 mod c_rgx;
+#[cfg(feature = "c_rgx")]
+mod c_rgxr;
 
 use std::io::Write;
 
@@ -87,24 +115,53 @@ fn main() {
     let stdout = std::io::stdout();
     let mut out = std::io::BufWriter::new(stdout.lock());
     match comp.as_str() {
+        #[cfg(feature = "c_path")]
         "path" => if replay { replay_loop(&mut out, c_path::replay_line) } else { c_path::run(&opts, &mut out) },
+        #[cfg(feature = "c_line")]
         "line" => if replay { replay_loop(&mut out, c_line::replay_line) } else { c_line::run(&opts, &mut out) },
+        #[cfg(feature = "c_sysl")]
         "sysl" => if replay { replay_loop(&mut out, c_sysl::replay_line) } else { c_sysl::run(&opts, &mut out) },
+        #[cfg(feature = "c_gate")]
         "gate" => if replay { replay_loop(&mut out, c_gate::replay_line) } else { c_gate::run(&opts, &mut out) },
+        #[cfg(feature = "c_proc")]
         "proc" => if replay { replay_loop(&mut out, c_proc::replay_line) } else { c_proc::run(&opts, &mut out) },
+        #[cfg(feature = "c_walk")]
         "walk" => if replay { replay_loop(&mut out, c_walk::replay_line) } else { c_walk::run(&opts, &mut out) },
+        #[cfg(feature = "c_prt")]
         "prt" => if replay { replay_loop(&mut out, c_prt::replay_line) } else { c_prt::run(&opts, &mut out) },
+        #[cfg(feature = "c_strm")]
         "strm" => if replay { replay_loop(&mut out, c_strm::replay_line) } else { c_strm::run(&opts, &mut out) },
+        #[cfg(feature = "c_walktar")]
         "walktar" => if replay { replay_loop(&mut out, c_walktar::replay_line) } else { c_walktar::run(&opts, &mut out) },
+        #[cfg(feature = "c_boxp")]
         "boxp" => if replay { replay_loop(&mut out, c_boxp::replay_line) } else { c_boxp::run(&opts, &mut out) },
+        #[cfg(feature = "c_asm")]
         "asm" => if replay { replay_loop(&mut out, c_asm::replay_line) } else { c_asm::run(&opts, &mut out) },
+        #[cfg(feature = "c_time")]
         "time" => if replay { replay_loop(&mut out, c_time::replay_line) } else { c_time::run(&opts, &mut out) },
+        #[cfg(feature = "c_fixed")]
         "fixed" => if replay { replay_loop(&mut out, c_fixed::replay_line) } else { c_fixed::run(&opts, &mut out) },
+        #[cfg(feature = "c_year")]
         "year" => if replay { replay_loop(&mut out, c_year::replay_line) } else { c_year::run(&opts, &mut out) },
+        #[cfg(feature = "c_jrender")]
+        "jrender" => if replay { replay_loop(&mut out, c_jrender::replay_line) } else { c_jrender::run(&opts, &mut out) },
+        #[cfg(feature = "c_srch")]
+        "srch" => if replay { replay_loop(&mut out, c_srch::replay_line) } else { c_srch::run(&opts, &mut out) },
+        #[cfg(feature = "c_layout")]
+        "layout" => if replay { replay_loop(&mut out, c_layout::replay_line) } else { c_layout::run(&opts, &mut out) },
+        #[cfg(feature = "c_fixedfile")]
+        "fixedfile" => if replay { replay_loop(&mut out, c_fixedfile::replay_line) } else { c_fixedfile::run(&opts, &mut out) },
+        #[cfg(feature = "c_patsel")]
         "patsel" => if replay { replay_loop(&mut out, c_patsel::replay_line) } else { c_patsel::run(&opts, &mut out) },
+        #[cfg(feature = "c_frender")]
         "frender" => if replay { replay_loop(&mut out, c_frender::replay_line) } else { c_frender::run(&opts, &mut out) },
+        #[cfg(feature = "c_syslc")]
         "syslc" => if replay { replay_loop(&mut out, c_syslc::replay_line) } else { c_syslc::run(&opts, &mut out) },
+        #[cfg(feature = "c_rgx")]
         "rgx" => if replay { replay_loop(&mut out, c_rgx::replay_line) } else { c_rgx::run(&opts, &mut out) },
+        #[cfg(feature = "c_rgx")]
+        "rgxr" => if replay { replay_loop(&mut out, c_rgxr::replay_line) } else { c_rgxr::run(&opts, &mut out) },
+        #[cfg(feature = "c_path")]
         "path-oracle" => c_path::oracle(&opts, &mut out),
         _ => {
             eprintln!("unknown component {}", comp);
